@@ -1,6 +1,7 @@
 package c18
 
 import (
+	"sync/atomic"
 	"bytes"
 	"fmt"
 	"runtime"
@@ -178,7 +179,7 @@ func (s *scheduler) quiesce() (map[int]*gInfo, bool) {
 		} else {
 			stable = 0
 		}
-		if time.Now().After(deadline) {
+		if time.Now().After(deadline) || atomic.LoadInt32(&overrun) == 1 {
 			return snap, false
 		}
 		runtime.Gosched()
